@@ -269,7 +269,7 @@ func runBatch(r *h.Run, batch int, streams []stream) {
 	}
 	b := bh.NewBroker()
 	b.Engine.ReadLimit = 200000
-	b.Mon.Inner.ClientTokenTimeout = 400 * time.Millisecond
+	b.Mon.Inner.ClientTokenTimeout = 4 * time.Second // well above any pause of the recording harness: a witness that acknowledges must never be timed out
 	b.Mon.Perturb = r.Rand(fmt.Sprintf("c14-perturb-%d", batch))
 	fail := func(key, msg string, st *stream) {
 		w := map[string]interface{}{"batch": batch, "detail": msg, "event_log_tail": b.Log.Dump(120)}
@@ -572,9 +572,75 @@ func floodSubscriber(r *h.Run, idx int) {
 	r.NonTrivial(fmt.Sprintf("flood:%d", idx))
 }
 
+// publishFlood: a client pipelines hundreds of QoS 1 publishes onto a topic a
+// witness is subscribed to, so the witness's session queue is full most of the
+// time (stock configuration). The witness acknowledges everything; messages
+// another witness publishes to it meanwhile must all arrive: a full queue of a
+// connected subscriber holds publishers back, it does not drop.
+func publishFlood(r *h.Run, idx int) {
+	if r.TooMany() {
+		return
+	}
+	r.Journal("C14 publish flood #%d", idx)
+	b := bh.NewBroker()
+	b.Mon.Inner.SessionQueueSize = 3 + idx%4 // small, so that it really is full most of the time; token timeouts stay at their defaults
+	defer b.Shutdown()
+	fail := func(key, msg string) {
+		r.Violation(key, fmt.Sprintf("publish flood #%d: %s", idx, msg), map[string]interface{}{"detail": msg, "event_log_tail": b.Log.Dump(80)})
+	}
+	w1, _, c1, e1 := b.Connect("witness-1", bh.ConnectOpts{ID: "pw1", Clean: true, AutoAck: true}, nil)
+	w2, _, c2, e2 := b.Connect("witness-2", bh.ConnectOpts{ID: "pw2", Clean: idx%2 == 0, AutoAck: true}, nil)
+	hp, _, c3, e3 := b.Connect("hostile", bh.ConnectOpts{ID: "pflood", Clean: true, AutoAck: true}, nil)
+	if e1 != nil || e2 != nil || e3 != nil || c1 == nil || c2 == nil || c3 == nil {
+		r.Inconclusive("publish flood: clients could not connect")
+		return
+	}
+	_ = w2.Send(&packet.Subscribe{ID: 1, Subscriptions: []packet.Subscription{{Topic: "wit/#", QOS: 1}}})
+	if _, err := bh.AwaitAck(w2, packet.SUBACK, 1); err != nil {
+		r.Inconclusive("publish flood: witness SUBACK")
+		return
+	}
+	nflood, nwit := 400+idx%3*200, 40
+	go func() {
+		for i := 1; i <= nflood; i++ {
+			if hp.Send(&packet.Publish{ID: packet.ID(i), Message: packet.Message{Topic: "wit/flood", QOS: 1, Payload: []byte("f")}}) != nil {
+				return
+			}
+		}
+	}()
+	for i := 1; i <= nwit; i++ {
+		_ = w1.Send(&packet.Publish{ID: packet.ID(i), Message: packet.Message{Topic: "wit/x", QOS: 1, Payload: []byte(fmt.Sprintf("w%03d", i))}})
+	}
+	if _, err := bh.AwaitAck(w1, packet.PUBACK, packet.ID(nwit)); err != nil {
+		r.Inconclusive(fmt.Sprintf("publish flood #%d: the witness publisher was not acknowledged within the watchdog", idx))
+		return
+	}
+	// everything the broker acknowledged to witness-1 reaches witness-2
+	count := func(all []packet.Generic) int {
+		n := 0
+		for _, g := range all {
+			if pp, is := g.(*packet.Publish); is && pp.Message.Topic == "wit/x" && !pp.Dup {
+				n++
+			}
+		}
+		return n
+	}
+	ok := w2.WaitCond(bh.Watchdog, func(all []packet.Generic) bool { return count(all) >= nwit })
+	if !ok {
+		if w2.EOF() {
+			fail("witness-disturbed", "the subscribing witness was disconnected during a publish flood by another client")
+		} else {
+			fail("witness-messages-lost-under-flood", fmt.Sprintf("%d of %d acknowledged messages reached the connected, acknowledging witness while another client flooded its topic with %d publishes", count(w2.All()), nwit, nflood))
+		}
+		return
+	}
+	r.Eval()
+	r.NonTrivial(fmt.Sprintf("pflood:%d", idx))
+}
+
 func TestCheck(t *testing.T) {
 	r := h.New("C14", "exploration")
-	r.Rule("hostile peers that always read send byte streams of 10 kinds {retained flood (150 retained QoS 1 messages, then a subscription to all of them, never acknowledged), resumed sessions finishing handshakes, valid packets in any order with small/repeating ids and hostile topics/filters (empty, wildcard-bearing, NUL-bearing, 64 KiB, deep), no CONNECT first, mutated/truncated frames, garbage, oversized packet, connect/disconnect storms on one id, hostile wills}, 6 at a time against one broker with backend-boundary perturbation, while two witnesses exchange numbered QoS 0/1/2 messages and PINGs after every group; every hostile connection must reach Closed() with Setup/Terminate paired; backend bookkeeping must show only the witnesses; separately MemoryBackend.Close fired at every backend hook-call index of a running session, every backend hook failing at its k-th call, a takeover hitting KillTimeout through a slow Terminate, and a client that stores 130-210 retained messages, subscribes to all of them and never acknowledges while the token timeout is 60 s (the witnesses' traffic must go on). Process death is detected by the driver from the journal. Non-trivial = hostile connections that got past CONNECT (Setup succeeded); distinct by connection")
+	r.Rule("hostile peers that always read send byte streams of 10 kinds {retained flood (150 retained QoS 1 messages, then a subscription to all of them, never acknowledged), resumed sessions finishing handshakes, valid packets in any order with small/repeating ids and hostile topics/filters (empty, wildcard-bearing, NUL-bearing, 64 KiB, deep), no CONNECT first, mutated/truncated frames, garbage, oversized packet, connect/disconnect storms on one id, hostile wills}, 6 at a time against one broker with backend-boundary perturbation, while two witnesses exchange numbered QoS 0/1/2 messages and PINGs after every group; every hostile connection must reach Closed() with Setup/Terminate paired; backend bookkeeping must show only the witnesses; separately MemoryBackend.Close fired at every backend hook-call index of a running session, every backend hook failing at its k-th call, a takeover hitting KillTimeout through a slow Terminate, and a client that stores 130-210 retained messages, subscribes to all of them and never acknowledges while the token timeout is 60 s (the witnesses' traffic must go on), and a publish flood of 400-800 QoS 1 messages onto a witness's topic under the stock configuration (every acknowledged witness message must still arrive). Process death is detected by the driver from the journal. Non-trivial = hostile connections that got past CONNECT (Setup succeeded); distinct by connection")
 	r.Assume("hostile peers keep reading (a peer that stops reading is the recorded C13 mechanism) and never use a witness's client id")
 	nb := r.Pick(24, 500)
 	per := 36
@@ -659,6 +725,9 @@ func TestCheck(t *testing.T) {
 	nfl := r.Pick(4, 40)
 	h.Parallel(nfl, 4, func(i int) { floodSubscriber(r, i) })
 	r.Count("flood_subscriber_runs", int64(nfl))
+	npf := r.Pick(6, 60)
+	h.Parallel(npf, 3, func(i int) { publishFlood(r, i) })
+	r.Count("publish_flood_runs", int64(npf))
 	// ---- goroutine census: nothing of the repository may still be running
 	time.Sleep(50 * time.Millisecond)
 	left := stuck.Parked(stuck.Dump(), "github.com/256dpi/gomqtt/")
